@@ -16,6 +16,7 @@ EXPLANATION = (
     "guard until it is handed back; T5 every transition of an existing index to InMemory re-initialises its filter (an off-loaded "
     "bloom buffer must not survive into a state that accepts adds). Decides this lifecycle discipline, not that query answers are "
     "unchanged across every interleaving.")
+EXPLANATION += (" " + 'T7 an assignment into the active slot is dominated (body or every caller) by an emptiness test of that slot / a take(), or happens under &mut Storage; T8 after take/replace/pop of a blob every non-error exit passes a hand-back (None edges carry nothing; close(self) exempt); T9 the (headers, count) results of get_records_headers take the count from header.records_count.')
 ASSUMPTIONS = ["State::InMemory / State::OnDisk are the only index states (read from the ADT table)"]
 
 OPEN_NEW = 'blob::core::Blob::<K>::open_new'
@@ -261,6 +262,15 @@ def t2(ctx, rid):
         if depth == 0 or target in seen:
             return False, 'depth limit at %s' % target
         cs = [c for c in core.call_sites_of(prog, target) if c.name != 'poll']
+        if not cs and prog.fns[target].kind == 'Closure' and not prog.fns[target].is_coroutine:
+            # a closure handed to an iterator adaptor / combinator: it runs where it was built (or later in the same body)
+            sites = core.closure_construction_sites(prog, target)
+            if sites:
+                for (par, pbb, r) in sites:
+                    ok, why = check_up(par, pbb, depth - 1, seen | {target})
+                    if not ok:
+                        return False, 'via closure built at %s: %s' % (par.where(pbb), why)
+                return True, 'the body that builds the closure establishes InMemory'
         if not cs:
             if not prog.fns[target].is_pub:
                 return True, '%s is crate-private and has no caller in this build' % target
@@ -285,7 +295,7 @@ def t2(ctx, rid):
             pass
         n += 1
         key = 'inmemory-before-push|%s' % prog.fns[f.id].root
-        ok, why = check_up(f, c.bb, 4, set())
+        ok, why = check_up(f, c.bb, 6, set())
         if ok:
             ctx.ok(rid, key, c.where(), why)
         else:
@@ -504,6 +514,12 @@ def t8(ctx, rid):
     moveout.dropped_rule(ctx, rid)
 
 
+def t9(ctx, rid):
+    """reloading an index from its file reproduces the record count the in-memory index had (C15.A1 loader instances)"""
+    import props.c15 as c15
+    c15.loader_returns_count(ctx, rid)
+
+
 RULES = [
     Rule('C04.T1', 'every value stored into the active-blob slot is certified to have an in-memory index (open_new, load_index ok, or popped after load_index ok on the last element)', t1, 7),
     Rule('C04.T2', 'every index push is dominated by an InMemory-establishing event, in the body or in every caller, or acts on the active-blob slot', t2, 3),
@@ -512,5 +528,6 @@ RULES = [
     Rule('C04.T5', 'every transition of an existing index to InMemory re-initialises its filter', t5, 2),
     Rule('C04.T7', 'an assignment into the active slot never overwrites a live blob (emptiness seen through the guard in hand, exclusive init, or previous content moved out)', t7, 4),
     Rule('C04.T8', 'a blob moved out of the active slot or the closed list is handed back on every non-error exit', t8, 4),
+    Rule('C04.T9', 'the loaders return the record count stored in the index header, not a property of the rebuilt key map', t9, 2),
     Rule('C04.T6', 'the closed-blob vector (child ids are positions) is never shrunk', t6, 4),
 ]
